@@ -59,6 +59,29 @@ CHECKS.update({
    note=E3_NOTE),
 })
 
+
+E4_NOTE = ("Trusted: the configuration / target-group generators (documented limits in the rule text) and the vendored Prometheus "
+           "library (config.Load, scrape.TargetsFromGroup) used as reference implementation. Held = held on the generated cases.")
+
+CHECKS.update({
+ "C02": dict(engine="E4 config", level="exploration", ref="DESIGN.md §5 C02",
+   technique="differential runtime monitoring: the real discovery -> sidecar API -> generated file -> Prometheus loader -> real proxy pipeline vs. the vendored Prometheus on the original config; observation point = request leaving JobInfo.Cli",
+   text="For generated configurations and target groups the set of (final target labels, scheme://host/path?sorted-query really requested by the proxy) obtained through the whole sharded pipeline - real TargetsDiscovery, JSON assignment to 1-3 real sidecars, generated file re-loaded with config.Load, scrape.TargetsFromGroup on its static entries, request through the real Proxy.ServeHTTP - must equal what scrape.TargetsFromGroup yields on the original configuration. A differential oracle with the production Prometheus code as reference is the strongest oracle available for 'equivalent to one plain Prometheus'.",
+   note=E4_NOTE),
+ "C11": dict(engine="E4 config", level="exploration", ref="DESIGN.md §5 C11",
+   technique="differential runtime monitoring: generated file re-loaded with the Prometheus loader and compared field-wise with the loaded original, reflective walk over all Secret values, byte scan for job secrets",
+   text="Generated configurations with every auth kind, SD kind, alerting and remote read/write sections with unique secrets are pushed through a real sidecar's API together with assignments (incl. empty jobs and targets of unknown jobs); the generated file must load, have the same jobs in order (+ the self-monitoring job iff enabled), static entries one-to-one with assigned hashes, http scheme, the sidecar's proxy URL, no basic-auth/TLS, no job secret in its bytes, unchanged ingestion settings, and unchanged global/rule/alerting/remote sections including every secret value.",
+   note=E4_NOTE),
+ "C15": dict(engine="E4 config", level="exploration", ref="DESIGN.md §5 C15",
+   technique="runtime monitoring: bijection oracle between hashes and (labels, URL) over repeated rounds, permutations, label placement, fresh processes and single-component edits",
+   text="The real TargetsDiscovery is run on generated configurations and groups; across repeated rounds, three permutation modes, 1-3 fresh processes and up to 40 single-component edits per case the relation hash <-> (shipped labels, URL) must stay a bijection, the by-hash table must have one key per distinct target, and equal inputs must give equal sets.",
+   note=E4_NOTE),
+ "C16": dict(engine="E4 config", level="exploration", ref="DESIGN.md §5 C16",
+   technique="runtime monitoring: catalogue of single-setting edits (must change the hash) and re-renderings / external-label changes (must not), cross-process and through a sidecar's /runtimeinfo/",
+   text="For each generated configuration every applicable entry of a ~150-entry catalogue of single-setting edits must change the hash computed by the real ConfigManager, seven textual re-renderings and three external-label changes must not, and the same text must hash identically in three fresh processes and inside a sidecar (as reported by /runtimeinfo/).",
+   note=E4_NOTE + " Pure list re-ordering is not asserted either way."),
+})
+
 NOT_YET = {
 }
 
@@ -107,6 +130,8 @@ def main():
         "engines": [
             {"name": "E1 stub-cycle", "path": "harness/internal/e1", "serves_properties": ["C01", "C04", "C05", "C07", "C08", "C19"],
              "kind_free_text": "real coordinator + real shard objects, scripted sidecar answers, recorded request log, offline oracles"},
+            {"name": "E4 config", "path": "harness/internal/e4", "serves_properties": ["C02", "C11", "C15", "C16"],
+             "kind_free_text": "structured configuration and target-group generators; differential against the vendored Prometheus library; child processes for cross-process hashes"},
             {"name": "E3 sidecar", "path": "harness/internal/e3", "serves_properties": ["C09", "C10", "C12", "C13", "C14"],
              "kind_free_text": "one real sidecar driven through its HTTP API and proxy; in-memory and raw-TCP targets; RLIMIT_FSIZE crash child; real binary under SIGKILL"},
         ],
